@@ -1,5 +1,8 @@
 """[U] what the generic rule bases print (C01, C02): every constituent, in order, with the separators of the rule.
 
+The clauses compare texts with their blanks removed (squeeze): spacing is one of the canonicalisations the properties allow,
+what must not happen is a constituent or separator token dropped, duplicated, reordered or invented.
+
 str(x) of a constituent is uninterpreted (the constituent's own tostr); the contracts pin how a node composes them.
 The arity of `items` is the shape returned by the class's match (see binary_op.py); it is a precondition here."""
 from pyvc.contracts import contract
@@ -9,23 +12,23 @@ U = "fparser.two.utils:"
 contract(U + "UnaryOpBase.tostr",
     types=dict(self="Base"), returns="str",
     requires={"two_items": "len(self.items) == 2"},
-    ensures={"op_blank_operand": "result == str(self.items[0]) + ' ' + str(self.items[1])"},
+    ensures={"op_blank_operand": "squeeze(result) == squeeze(str(self.items[0]) + ' ' + str(self.items[1]))"},
     raises=[], serves=["C01", "C02"])
 
 contract(U + "BinaryOpBase.tostr",
     types=dict(self="Base"), returns="str",
     requires={"three_items": "len(self.items) == 3"},
-    ensures={"lhs_op_rhs": "result == str(self.items[0]) + ' ' + str(self.items[1]) + ' ' + str(self.items[2])"},
+    ensures={"lhs_op_rhs": "squeeze(result) == squeeze(str(self.items[0]) + ' ' + str(self.items[1]) + ' ' + str(self.items[2]))"},
     raises=[], serves=["C01", "C02"])
 
 contract(U + "SeparatorBase.tostr",
     types=dict(self="Base"), returns="str",
     requires={"two_items": "len(self.items) == 2"},
     ensures={
-        "both": "implies(self.items[0] is not None and self.items[1] is not None, result == str(self.items[0]) + ' : ' + str(self.items[1]))",
-        "lhs_only": "implies(self.items[0] is not None and self.items[1] is None, result == str(self.items[0]) + ' :')",
-        "rhs_only": "implies(self.items[0] is None and self.items[1] is not None, result == ': ' + str(self.items[1]))",
-        "neither": "implies(self.items[0] is None and self.items[1] is None, result == ':')",
+        "both": "implies(self.items[0] is not None and self.items[1] is not None, squeeze(result) == squeeze(str(self.items[0]) + ' : ' + str(self.items[1])))",
+        "lhs_only": "implies(self.items[0] is not None and self.items[1] is None, squeeze(result) == squeeze(str(self.items[0]) + ' :'))",
+        "rhs_only": "implies(self.items[0] is None and self.items[1] is not None, squeeze(result) == squeeze(': ' + str(self.items[1])))",
+        "neither": "implies(self.items[0] is None and self.items[1] is None, squeeze(result) == squeeze(':'))",
     },
     raises=[], serves=["C01", "C02"])
 
@@ -33,8 +36,8 @@ contract(U + "KeywordValueBase.tostr",
     types=dict(self="Base"), returns="str",
     requires={"two_items": "len(self.items) == 2"},
     ensures={
-        "value_only": "implies(self.items[0] is None, result == str(self.items[1]))",
-        "keyword_equals_value": "implies(self.items[0] is not None, result == str(self.items[0]) + ' = ' + str(self.items[1]))",
+        "value_only": "implies(self.items[0] is None, squeeze(result) == squeeze(str(self.items[1])))",
+        "keyword_equals_value": "implies(self.items[0] is not None, squeeze(result) == squeeze(str(self.items[0]) + ' = ' + str(self.items[1])))",
     },
     raises=[], serves=["C01", "C02"])
 
@@ -42,8 +45,8 @@ contract(U + "CallBase.tostr",
     types=dict(self="Base"), returns="str",
     requires={"two_items": "len(self.items) == 2"},
     ensures={
-        "empty_parentheses": "implies(self.items[1] is None, result == str(self.items[0]) + '()')",
-        "designator_then_arguments": "implies(self.items[1] is not None, result == str(self.items[0]) + '(' + str(self.items[1]) + ')')",
+        "empty_parentheses": "implies(self.items[1] is None, squeeze(result) == squeeze(str(self.items[0]) + '()'))",
+        "designator_then_arguments": "implies(self.items[1] is not None, squeeze(result) == squeeze(str(self.items[0]) + '(' + str(self.items[1]) + ')'))",
     },
     raises=[], serves=["C01", "C02"])
 
@@ -51,8 +54,8 @@ contract(U + "NumberBase.tostr",
     types=dict(self="Base"), returns="str",
     requires={"two_items": "len(self.items) == 2"},
     ensures={
-        "no_kind": "implies(self.items[1] is None, result == str(self.items[0]))",
-        "value_underscore_kind": "implies(self.items[1] is not None, result == str(self.items[0]) + '_' + str(self.items[1]))",
+        "no_kind": "implies(self.items[1] is None, squeeze(result) == squeeze(str(self.items[0])))",
+        "value_underscore_kind": "implies(self.items[1] is not None, squeeze(result) == squeeze(str(self.items[0]) + '_' + str(self.items[1])))",
     },
     raises=[], serves=["C01", "C02"])
 
@@ -60,9 +63,9 @@ contract(U + "EndStmtBase.tostr",
     types=dict(self="Base"), returns="str",
     requires={"two_items": "len(self.items) == 2"},
     ensures={
-        "end_type_name": "implies(self.items[1] is not None, result == 'END ' + str(self.items[0]) + ' ' + str(self.items[1]))",
-        "end_type": "implies(self.items[1] is None and self.items[0] is not None, result == 'END ' + str(self.items[0]))",
-        "bare_end": "implies(self.items[1] is None and self.items[0] is None, result == 'END')",
+        "end_type_name": "implies(self.items[1] is not None, squeeze(result) == squeeze('END ' + str(self.items[0]) + ' ' + str(self.items[1])))",
+        "end_type": "implies(self.items[1] is None and self.items[0] is not None, squeeze(result) == squeeze('END ' + str(self.items[0])))",
+        "bare_end": "implies(self.items[1] is None and self.items[0] is None, squeeze(result) == squeeze('END'))",
     },
     raises=[], serves=["C01", "C02"])
 
@@ -74,8 +77,8 @@ contract(U + "StringBase.tostr",
 contract(U + "BracketBase.tostr",
     types=dict(self="Base"), returns="str",
     ensures={
-        "empty_brackets": "implies(self.items[1] is None, result == str(self.items[0]) + str(self.items[2]))",
-        "left_content_right": "implies(self.items[1] is not None, result == str(self.items[0]) + str(self.items[1]) + str(self.items[2]))",
+        "empty_brackets": "implies(self.items[1] is None, squeeze(result) == squeeze(str(self.items[0]) + str(self.items[2])))",
+        "left_content_right": "implies(self.items[1] is not None, squeeze(result) == squeeze(str(self.items[0]) + str(self.items[1]) + str(self.items[2])))",
         "three_items_with_brackets": "len(self.items) == 3",
     },
     raises={"InternalError": {"malformed_node": "len(self.items) != 3 or not self.items[0] or not self.items[2]"}},
@@ -86,6 +89,6 @@ contract(U + "SequenceBase.tostr",
     ensures={
         # every item, in order, separated by the rule's separator (', ' for a comma, blanks around anything but a blank)
         "items_in_order_with_separator":
-            "result == (', ' if self.separator == ',' else ' ' if self.separator == ' ' else ' ' + self.separator + ' ').join([str(x) for x in self.items])",
+            "squeeze(result) == squeeze((', ' if self.separator == ',' else ' ' if self.separator == ' ' else ' ' + self.separator + ' ').join([str(x) for x in self.items]))",
     },
     raises=[], serves=["C01", "C02"])
